@@ -686,3 +686,46 @@ package engine
 //@   loop 2 invariant numbered: forall k :: { matches.store[k] } { matches.store[k + 1] } 0 <= k && k + 1 < len(matches.store) ==> matches.store[k + 1].MatchNumber == matches.store[k].MatchNumber + 1
 //@   loop 2 invariant newest: len(matches.store) > 0 ==> matches.store[len(matches.store) - 1].MatchNumber == matchNumber
 //@   loop 2 presumes pc: currentState.status == INPROCESS ==> 0 <= currentState.programCounter && currentState.programCounter < len(insts) && insts[currentState.programCounter] != nil
+
+// ---- JSON rendering (C17) ----
+// What vore's code contributes: no panic; the value handed to encoding/json is the receiver
+// (lists), the documented member set bound to the in-memory fields (Match), the string itself
+// (ValueString), the member map itself (ValueHashMap). The text produced for those values is
+// encoding/json's (A-JSON, spec/externals.spec).
+
+//@ func (Matches).Json [C17]
+//@   nopanic
+//@   atcall Marshal whole: arg0 == box(Matches, m)
+//@   ensures result == jsonOf(box(Matches, m))
+//@ func (Matches).FormattedJson [C17]
+//@   nopanic
+//@   atcall MarshalIndent whole: arg0 == box(Matches, m) && arg1 == "" && arg2 == "\t"
+//@   ensures result == jsonIndentOf(box(Matches, m), "", "\t")
+//@ func (Match).Json [C17]
+//@   nopanic
+//@   atcall Marshal whole: arg0 == box(Match, m)
+//@   ensures result == jsonOf(box(Match, m))
+//@ func (Match).FormattedJson [C17]
+//@   nopanic
+//@   atcall MarshalIndent whole: arg0 == box(Match, m) && arg1 == "" && arg2 == "\t"
+//@   ensures result == jsonIndentOf(box(Match, m), "", "\t")
+
+//@ func (Match).MarshalJSON [C17]
+//@   nopanic
+//@   atcall Marshal members: (arg0 as map[string]any) == result && (forall k Str :: { has(result, k) } has(result, k) == (k == "filename" || k == "matchNumber" || k == "offset" || k == "line" || k == "column" || k == "value" || k == "variables" || (k == "replacement" && m.Replacement.hasValue)))
+//@   atcall Marshal filename: result["filename"] == box(string, m.Filename)
+//@   atcall Marshal matchNumber: result["matchNumber"] == box(int, m.MatchNumber)
+//@   atcall Marshal offset: result["offset"] == box(ds.Range, m.Offset)
+//@   atcall Marshal line: result["line"] == box(ds.Range, m.Line)
+//@   atcall Marshal column: result["column"] == box(ds.Range, m.Column)
+//@   atcall Marshal value: result["value"] == box(string, m.Value)
+//@   atcall Marshal variables: result["variables"] == box(ValueHashMap, m.Variables)
+//@   atcall Marshal replacement: m.Replacement.hasValue ==> result["replacement"] == box(string, m.Replacement.data)
+//@   ensures result.1 == nil
+//@ func (ValueString).MarshalJSON [C17]
+//@   nopanic
+//@   ensures result.1 == nil && sofbytes(row(result.0), result.0.lo, len(result.0)) == jsonOf(box(string, v.Value))
+//@ func (ValueHashMap).MarshalJSON [C17]
+//@   nopanic
+//@   atcall Marshal whole: arg0 == box(map[string]Value, v.Value)
+//@   ensures result.1 == nil
